@@ -221,3 +221,56 @@ func VH_C11_first_frames_after_handshake() {
 	}
 	vrtReach("established-and-delivered")
 }
+
+// VH_C11_concurrent_senders: two goroutines send through one remoting mailbox
+// (one connection) at the same time. Every envelope is written as exactly one
+// whole frame (no interleaved bytes), each exactly once, one sender's envelopes
+// in its program order; no data race on the connection state.
+func VH_C11_concurrent_senders() {
+	conn := &vhFailConn{vhConn: vhConn{cut: -1}}
+	m, h := vhNewSender(0, conn)
+	x := vrtUint8()
+	mk := func(tag byte) *vhEnv {
+		return &vhEnv{sender: &vhRef{"s:1", "/s"}, receiver: &vhRef{"127.0.0.1:1", "/r"}, msg: &vhBody{B: []byte{tag, x}}}
+	}
+	a1, a2, b1 := mk(1), mk(2), mk(3)
+	var wg sync.WaitGroup
+	wg.Add(2)
+	go func() {
+		defer wg.Done()
+		m.Enqueue(a1)
+		m.Enqueue(a2)
+	}()
+	go func() {
+		defer wg.Done()
+		m.Enqueue(b1)
+	}()
+	wg.Wait()
+	vrtRaceOff()
+	vrtAssert(len(h.failed) == 0, "healthy-connection-writes")
+	vrtAssert(len(conn.written) == 3, "one-write-per-envelope")
+	pos := map[byte]int{}
+	for i, wr := range conn.written {
+		matched := false
+		for _, e := range []*vhEnv{a1, a2, b1} {
+			want, err := m.encodeEnvelopWithLength(e)
+			vrtAssert(err == nil, "frame-encodes")
+			if len(want) == len(wr) {
+				same := true
+				for j := range want {
+					if want[j] != wr[j] {
+						same = false
+					}
+				}
+				if same {
+					matched = true
+					pos[e.msg.(*vhBody).B[0]] = i + 1
+				}
+			}
+		}
+		vrtAssert(matched, "each-write-is-one-whole-frame")
+	}
+	vrtAssert(pos[1] > 0 && pos[2] > 0 && pos[3] > 0, "every-envelope-written-exactly-once")
+	vrtAssert(pos[1] < pos[2], "per-sender-order-on-the-wire")
+	vrtReach("all-written")
+}
